@@ -4,8 +4,88 @@
 fail, to show the invariants are not vacuous); (B) seeded random closed-loop scenarios of the profile(s) below run on
 the REAL kopf.operator() in the world simulator, every trace judged by TLC against Trace_Handling.tla (all invariants
 of the module are evaluated on every state of the explaining behaviour, and time is bound by urgency).
+
+(M) OnceMonitor.tla (per-process clause): runs of the real operator with TWO resume handlers (one succeeds at once, the other
+retries), an update handler, graceful restarts and edits inside the window in which one resume handler has finished and the
+other is still due (the resuming cause is superseded by the updating one): no resume handler is invoked again once it has
+finished for this object in this operator process.
 """
 from vf.props import _family
+
+
+def resume_case(sc):
+    import kopf
+    from sim.opsim import GROUP, PLURAL, VERSION, Sim
+    sim = Sim(wall_budget=20)
+    try:
+        sim.srv.keep_bodies.add(PLURAL)
+        reg = sim.registry()
+        out = lambda o: {'ok': 'ok', 'temp': ('temp', sc['delay']), 'perm': 'perm'}[o]
+        scripts = {h: [out(o) for o in sc[h]] for h in ('r1', 'r2', 'u')}
+        # the scripts are per operator process: a new process starts them again
+        hs = {}
+
+        def fresh():
+            hs.clear()
+            for h in ('r1', 'r2', 'u'):
+                hs[h] = sim.handler(h, list(scripts[h]))
+
+        def mk(h):
+            async def fn(**kw):
+                return await hs[h](**kw)
+            fn.__name__ = h
+            return fn
+        fresh()
+        kopf.on.resume(GROUP, VERSION, PLURAL, registry=reg, id='r1')(mk('r1'))
+        kopf.on.resume(GROUP, VERSION, PLURAL, registry=reg, id='r2')(mk('r2'))
+        kopf.on.update(GROUP, VERSION, PLURAL, registry=reg, id='u')(mk('u'))
+        kopf.on.create(GROUP, VERSION, PLURAL, registry=reg, id='u')(mk('u'))
+        sim.create('o1', {'x': 0})
+        ops = [sim.operator('op1', reg, sim.settings())]
+        n = {'op': 1}
+
+        def restart():
+            ops[-1].finish()
+            n['op'] += 1; fresh()
+            sim.rec('env.restart')
+            ops.append(sim.operator(f'op{n["op"]}', reg, sim.settings()))
+        for (t, what) in sc['env']:
+            if what == 'edit':
+                sim.world.at(t, lambda t=t: sim.set_spec('o1', x=t), 1)
+            else:
+                sim.world.at(t, restart, 1)
+        sim.run(sc['end'])
+        events = []
+        for e in sim.recorder.events:
+            if e['ev'] == 'h.enter' and e.get('id') in ('r1', 'r2'):
+                events.append({'ev': 'inv', 'id': e['id'], 'retry': e.get('retry') or 0, 't': e['t']})
+            elif e['ev'] == 'h.exit' and e.get('id') in ('r1', 'r2') and e.get('outcome') in ('ok', 'temp', 'perm'):
+                events.append({'ev': 'done', 'id': e['id'], 'how': e['outcome'], 't': e['t']})
+            elif e['ev'] == 'env.restart':
+                events.append({'ev': 'restart', 't': e['t']})
+            elif e['ev'] == 'srv.req' and e.get('kind') == 'patch' and e.get('plural') == PLURAL and e.get('code') == 200 and isinstance(e.get('pbody'), dict):
+                ann = (e['pbody'].get('metadata') or {}).get('annotations') or {}
+                purged = [k for k, v in ann.items() if v is None and k.startswith('kopf.zalando.org/') and not k.endswith('touch-dummy')]
+                if ann.get('kopf.zalando.org/last-handled-configuration') or purged:
+                    events.append({'ev': 'close', 't': e['t']})
+        ops[-1].finish()
+        return {'id': sc['id'], 'events': events, 'perprocess': ['r1', 'r2'], 'scenario': sc}
+    finally:
+        sim.close()
+
+
+def resume_scenarios(seed, n):
+    import random
+    rnd = random.Random(f'resume2-{seed}')
+    out = [{'id': 'resume2-crafted', 'r1': ['ok'], 'r2': ['temp', 'ok'], 'u': ['ok'], 'delay': 6, 'env': [(3, 'edit')], 'end': 40}]
+    for k in range(n):
+        env = []; t = 0
+        for _ in range(rnd.randint(1, 5)):
+            t += rnd.choice([1, 2, 3, 4, 8])
+            env.append((t, rnd.choice(['edit', 'edit', 'restart'])))
+        out.append({'id': f'resume2-{seed}-{k}', 'r1': rnd.choice([['ok'], ['temp', 'ok']]), 'r2': rnd.choice([['temp', 'ok'], ['temp', 'temp', 'ok'], ['ok'], ['perm']]),
+                    'u': rnd.choice([['ok'], ['temp', 'ok']]), 'delay': rnd.choice([3, 6]), 'env': env, 'end': t + 40})
+    return out
 
 PROFILES = "resume".split(',')
 CFGS = "restart".split(',')
@@ -24,3 +104,15 @@ def run(ctx, rep) -> None:
     for p in PROFILES:
         scs += H.gen_scenarios(ctx.seed, n // len(PROFILES), p)
     _family.run_traces(rep, scs, '+'.join(PROFILES), nontrivial=lambda f: bool(f & FEATURES))
+    from concurrent.futures import ProcessPoolExecutor
+    from vf.props.C02 import judge_once
+    rscs = resume_scenarios(ctx.seed, 120 if ctx.quick else 2500)
+    with ProcessPoolExecutor(16) as ex:
+        rtr = list(ex.map(resume_case, rscs, chunksize=4))
+    rv = judge_once(rtr, rep)
+    rep.evaluations += len(rtr); rep.traces += len(rtr)
+    for t in rtr:
+        if any(e['ev'] == 'done' and e['how'] == 'temp' for e in t['events']):
+            rep.nontrivial(t['events'])
+        if rv[t['id']] != 'ok':
+            rep.violation(f'{t["id"]}: {rv[t["id"]]} {t["scenario"]}', payload=t)
